@@ -126,7 +126,17 @@ Definition c08_ok : bool :=
     forallb (fun t =>
       let h := pt_hash t in
       negb (existsb (fun k => negb (Nat.eqb k k') && amem h (reported k)) all_k) ||
-      existsb (fun k2 => negb (Nat.eqb k2 k') && insync k2 && amem h (reported k2)) all_k) (newly k')) all_k.
+      existsb (fun k2 => negb (Nat.eqb k2 k') && insync k2 && amem h (reported k2)) all_k) (newly k')) all_k &&
+  (* a shard that is not in sync is never the destination of a move: whenever an in-sync shard is told to mark a copy
+     it reported as normal in_transfer (a move starts there), an in-sync shard is asked to hold that target normally *)
+  forallb (fun k =>
+    negb (insync k) ||
+    forallb (fun kv =>
+      let h := fst kv in
+      negb (tstate_eqb (c_state (snd kv)) Normal) ||
+      negb (existsb (fun x => N.eqb (fst x) h && tstate_eqb (snd x) InTransfer) (intended k)) ||
+      existsb (fun k' => negb (Nat.eqb k' k) && insync k' &&
+                         existsb (fun x => N.eqb (fst x) h && tstate_eqb (snd x) Normal) (intended k')) all_k) (reported k)) all_k.
 
 (* C04, what can be decided from the implementation's observables alone *)
 Definition runtime_used (k : nat) : sinfo := info_at k.
